@@ -214,3 +214,47 @@ def c08(ctx):
                  'use-after-free / double free within a function'],
         not_decided=['leaks that need arithmetic on ESIs or the order of API calls across functions to see',
                      'error-status exits (allocation failure) are exempt by the property\'s "protocol-conforming" scope'])
+
+
+from . import rules_matrix as MX
+
+SPARSE_UNITS = ['of_matrix_sparse.c', 'of_matrix_convert.c']
+DENSE_UNITS = ['of_matrix_dense.c', 'of_hamming_weight.c', 'of_ml_tool.c', 'of_matrix_convert.c']
+
+
+@prop('C17')
+def c17(ctx):
+    for prog in programs(ctx):
+        O.r_own_field(ctx, prog, [], helpers=True)
+        O.r_freelist(ctx, prog)
+        MX.r_dlink(ctx, prog)
+        MX.r_idx_guard(ctx, prog, SPARSE_UNITS, floor=4)
+        O.r_uaf(ctx, prog, SPARSE_UNITS, min_sites=5)
+    return dict(
+        explanation='Structural invariants of the sparse matrix that the set semantics rests on: every routine that takes a fresh entry '
+        'links it into its row and its column completely before returning it and delete unlinks both ways and recycles the entry '
+        '(R-DLINK); the free list never outlives the blocks it points into (R-FREELIST); both coordinates are checked strictly against '
+        'the allocated extents before rows[]/cols[] are indexed (R-IDX-GUARD); the destructor releases rows, cols and every block '
+        '(R-OWN-FIELD); no use after free inside the unit (R-UAF).',
+        decides=['link/unlink pairing, free-list discipline, index guards, release completeness, no use-after-free'],
+        not_decided=['set semantics under arbitrary operation sequences (ordering of traversals, idempotence of insert): model-level'])
+
+
+@prop('C18')
+def c18(ctx):
+    for prog in programs(ctx):
+        MX.r_wordgeom(ctx, prog)
+        T.r_hw8(ctx, prog)
+        MX.r_bitloop(ctx, prog)
+        MX.r_idx_guard(ctx, prog, DENSE_UNITS, floor=4)
+        O.r_own_field(ctx, prog, [], helpers=True)
+        MX.r_pairswap(ctx, prog)
+    return dict(
+        explanation='R-WORDGEOM: word/bit addressing constants of get/set/flip and of the allocator are mutually consistent with the '
+        'word type. R-HW8: the byte popcount table is exact (exhaustive). R-BITLOOP: the bit-serial popcount visits every bit. '
+        'R-IDX-GUARD: guarded row/column indices are compared strictly with the dimension the indexed array was allocated with. '
+        'R-OWN-FIELD: the destructor releases both allocations. R-PAIRSWAP: the solver exchanges right-hand sides with rows.',
+        decides=['bit addressing geometry, popcount table, bit-loop trip count, index guards vs extents, row/constant-term swap pairing'],
+        not_decided=['that get/set/copy/weights equal the bit-matrix model for all dimensions; that the solver returns the unique solution '
+                     'iff full column rank (value-level)', 'the SWAR popcount formulas (of_popcount_3, of_hweight32)'],
+        exhaustive=False)
